@@ -83,6 +83,8 @@ Record event := { ev_time : Q;   (* instant the underlying call returns: the byt
                   ev_sleep : Q;  (* sleep requested *)
                   ev_debt : Q }. (* amortised debt after the call *)
 
+(* the state carried to the next call is normalised (Qred x == x): this only keeps the numbers small when the
+   model is executed *)
 Fixpoint run (PL TH L clock debt : Q) (cs : list call) : list event :=
   match cs with
   | [] => []
@@ -90,7 +92,7 @@ Fixpoint run (PL TH L clock debt : Q) (cs : list call) : list event :=
       let clock0 := clock + c_gap c in
       let '(clock1, debt1, slept) := io_timing PL TH L (c_over c) (c_lat c) clock0 debt (c_size c) in
       {| ev_time := clock0 + c_lat c; ev_bytes := c_size c; ev_sleep := slept; ev_debt := debt1 |}
-        :: run PL TH L clock1 debt1 cs'
+        :: run PL TH L (Qred clock1) (Qred debt1) cs'
   end.
 
 Definition io_timing_nocap (TH limit over e clock amortised n : Q) : Q * Q * Q :=
@@ -103,7 +105,7 @@ Fixpoint run_nocap (TH L clock debt : Q) (cs : list call) : list event :=
       let clock0 := clock + c_gap c in
       let '(clock1, debt1, slept) := io_timing_nocap TH L (c_over c) (c_lat c) clock0 debt (c_size c) in
       {| ev_time := clock0 + c_lat c; ev_bytes := c_size c; ev_sleep := slept; ev_debt := debt1 |}
-        :: run_nocap TH L clock1 debt1 cs'
+        :: run_nocap TH L (Qred clock1) (Qred debt1) cs'
   end.
 
 Definition in_window (t T : Q) (ev : event) : bool := Qle_bool t (ev_time ev) && Qle_bool (ev_time ev) (t + T).
@@ -129,7 +131,7 @@ Definition mcall_ok (st : mstate) (c : mcall) : bool :=
 Definition mstep (PL TH L : Q) (st : mstate) (c : mcall) : mstate * event :=
   let '(clock1, debt1, slept) :=
     pause PL TH 0 (m_lock c) (ms_debt st) (py_max (m_size c / L - m_lat c) 0) in
-  ({| ms_lockfree := clock1; ms_debt := debt1; ms_ready := (m_thread c, clock1) :: ms_ready st |},
+  ({| ms_lockfree := Qred clock1; ms_debt := Qred debt1; ms_ready := (m_thread c, Qred clock1) :: ms_ready st |},
    {| ev_time := m_begin c + m_lat c; ev_bytes := m_size c; ev_sleep := slept; ev_debt := debt1 |}).
 
 Fixpoint mrun (PL TH L : Q) (st : mstate) (cs : list mcall) : list event :=
